@@ -442,10 +442,19 @@ def _run1(fn, start, env, stop_pred, P, call_value, max_steps, exit_blocks, fork
                         env.update(upd)
                     if v == "impure":
                         return Outcome("unknown", el, env, trace, "call %s outside the pure fragment" % show(e)[:60])
+                    # the value is looked up again by the enclosing assignment / condition, which sees the call with its array indices made concrete (a[i] -> a[2])
+                    try:
+                        ck = nkey(conc(normx(e)))
+                    except Exception:
+                        ck = None
                     if v is not None:
                         env[nkey(e)] = v
+                        if ck is not None and ck != nkey(e):
+                            env[ck] = v
                     else:
                         env.pop(nkey(e), None)
+                        if ck is not None:
+                            env.pop(ck, None)
                 elif k == "asg":
                     op = e[1]
                     try:
